@@ -1142,7 +1142,7 @@ def attr_case(r: dict, per_use: list[dict], names: list[str]) -> tuple[str, list
                 break
             cur = abs_state(failed[0], names, dest)
             continue
-        oracle = [{0: 0, 3: 1, 2: 2}.get(e[3], 1) for e in pu['events'] if e[0] in (3, 4, 5)]
+        oracle = pu['exit_calls']
         m, a = abs_state(mid[0], names, dest), abs_state(aft[0], names, dest)
         rows.append(f'({coq_astate(cur)}, {"true" if aft[0][2] else "false"}, {coq_list(map(str, oracle))}, '
                     f'{coq_astate(m)}, {coq_astate(a)})')
@@ -1248,7 +1248,20 @@ def history_campaign(ck: Ck, do_model: bool) -> None:
                         ck.tie_broken.append('correspondence AtomicWriter history trace: ' + why)
                     per_use = None
                     continue
-                per_use.append(dict(events=evs, listing=after, returned=outc == 'ok', cut=len(uops) + 5,
+                # the results of the calls __exit__ made, in order (0 ok, 1 OSError, 2 FileNotFoundError): a close() whose
+                # flush was refused raises although the raw close succeeds
+                calls, flush_failed = [], False
+                for o in uops:
+                    if o['phase'] != 'exit':
+                        continue
+                    if o['op'] == 'write':
+                        flush_failed = flush_failed or o['res'] == 'fault'
+                    elif o['op'] == 'close':
+                        calls.append(1 if flush_failed or o['res'] == 'fault' else 0)
+                        flush_failed = False
+                    elif o['op'] in ('replace', 'unlink'):
+                        calls.append({'ok': 0, 'fault': 1, 'noent': 2}.get(o['res'], 1))
+                per_use.append(dict(events=evs, listing=after, returned=outc == 'ok', cut=len(uops) + 5, exit_calls=calls,
                                     replaced=any(e[0] == 4 and e[3] == 0 for e in evs),
                                     faults=[i for i, e in enumerate(evs) if e[3] == 3]))
             if modelled and per_use:
